@@ -35,6 +35,7 @@ def bounds(tier):
 
 def plan(tier, seed):
     ch = [{'k': 'pp', 'first': t, 'maxlen': 4, 'tokens': TOKENS} for t in TOKENS]
+    ch.append({'k': 'encodings'})
     ch.append({'k': 'pp_short'})
     ch.append({'k': 'e2e_text'})
     ch.append({'k': 'e2e_json'})
@@ -269,6 +270,8 @@ def run_chunk(chunk):
         for s in ['"Section Version": 1,', 'a' * 40 + '":' + 'b' * 40, '    "key": "value"', '\\":', '\\\\":', 'é":é', '": {',
                   '":' * 20, 'x' * 100, '"\\u0041":', '\\' * 40, '"' * 40, '\\"' * 30, '\\' * 39 + '"', 'a\\' * 25 + ':']:
             _do(res, {'k': 'pp', 's': s}, s)
+    elif k == 'encodings':
+        _encodings(res)
     elif k in ('e2e_text', 'e2e_json'):
         via = 'text' if k == 'e2e_text' else 'json'
         toks = [t for t in TOKENS if not (via == 'text' and t == '\n')]
@@ -287,3 +290,57 @@ def run_chunk(chunk):
             grp = codes[i:i + 6]
             _do(res, {'k': 'cli', 'codes': grp}, ''.join(grp), every=3)
     return res
+
+
+UNI_VALUES = ['caf\u00e9', '\u65e5\u672c', '\U0001f600', 'lone high \ud83d surrogate', 'lone low \udc00', 'line\u2028sep', '\u0085nel', '\x7f\x80\xff']
+
+
+def _encodings(res):
+    """The printed text must be valid JSON equal to the document whatever the output stream's encoding is: the real
+    executable with stdout encoded as ascii / latin-1 / utf-8 (PYTHONIOENCODING), -f and -j, non-ASCII and lone surrogates."""
+    import subprocess
+    pt = impl.ensure(False)
+    n_ok = 0
+    with tempfile.TemporaryDirectory(prefix='c06e_', dir=clidrv.scratch_root()) as d:
+        os.mkdir(os.path.join(d, 'in'))
+        for vi, val in enumerate(UNI_VALUES):
+            value = {'text': val, val.replace('\ud83d', 'k').replace('\udc00', 'k'): 'as key', 'list': [val]}
+            raw = json.dumps(value).encode('ascii')            # \uXXXX escapes in the payload: any JSON text is legal user data
+            spec = {'eid': 0x50000300 + vi, 'sections': [{'t': 'UD', 'comp': 0x2000, 'sub': 1, 'payload': raw.hex()}]}
+            path = os.path.join(d, 'in', 'u%02d' % vi)
+            with open(path, 'wb') as f:
+                f.write(pelgen.encode_pel(pelgen.pel_from_spec(spec)))
+            for enc in ('ascii', 'latin-1', 'utf-8'):
+                case = {'k': 'encoding', 'value': val.encode('unicode_escape').decode(), 'stdout_encoding': enc}
+                env = dict(os.environ, PYTHONPATH=core.MODULES, PYTHONDONTWRITEBYTECODE='1', PYTHONIOENCODING=enc)
+                p = subprocess.run([core.PY, clidrv.PELTOOL_PY, '-f', path, '-E'], capture_output=True, env=env, timeout=60)
+                probs = []
+                try:
+                    doc = json.loads(p.stdout.decode(enc))
+                    got = {k: v for k, v in doc['User Data'].items() if k not in ('Section Version', 'Sub-section type', 'Created by')}
+                    if got != value:
+                        probs.append('document printed with a %s stdout differs from the decoded value' % enc)
+                except Exception as e:
+                    probs.append('stdout (%s) is not the JSON document: %s; stderr %r' % (enc, e, p.stderr[-160:]))
+                outd = os.path.join(d, 'out_%d_%s' % (vi, enc))
+                os.mkdir(outd)
+                env2 = dict(env, LC_ALL='C', LANG='C', PYTHONUTF8='0', PYTHONCOERCECLOCALE='0') if enc == 'ascii' else env
+                subprocess.run([core.PY, clidrv.PELTOOL_PY, '-p', os.path.join(d, 'in'), '-j', '-o', outd, '-E'], capture_output=True,
+                               env=env2, timeout=60)
+                fn = os.path.join(outd, 'u%02d.%08X.json' % (vi, 0x50000300 + vi))
+                try:
+                    with open(fn, 'rb') as f:
+                        text = f.read()
+                    doc = json.loads(text.decode('utf-8', 'surrogatepass') if enc != 'ascii' else text.decode('ascii'))
+                    got = {k: v for k, v in doc['User Data'].items() if k not in ('Section Version', 'Sub-section type', 'Created by')}
+                    if got != value:
+                        probs.append('file written by --json differs from the decoded value')
+                except Exception as e:
+                    probs.append('file written by --json (locale %s) is not the JSON document: %s' % ('C' if enc == 'ascii' else 'default', e))
+                res.case(nontrivial_key=json.dumps(case), outcome='encoding:' + ('bad' if probs else 'ok'),
+                         sample=case if vi == 0 else None)
+                if probs:
+                    res.violation('C06:output-encoding', '; '.join(probs[:2]) + ' (value %s)' % case['value'], case)
+                else:
+                    n_ok += 1
+    res.extra['traces_validated_against_impl'] = n_ok
